@@ -318,7 +318,7 @@ type VC struct {
 	litResults  map[*ast.FuncLit][]*types.Var
 	usedLoops   map[int]bool
 	usedSpecs   map[string]bool
-	loopOrd     map[ast.Stmt]int
+	loopOrd     map[ast.Node]int
 	targets     []*target
 	sinks       []*retSink
 	dry         int
